@@ -1,6 +1,7 @@
 CONSTANTS
   Fids = {0, 1}
   Sample = 1
+  SampleChange = 1
   NOFID = 99
   MaxH = 3
   NameLists <- NL_quick
